@@ -15,8 +15,10 @@ EXTENDS Lattice, Chars
 
 cSP == 32  cDASH == 45  cTILDE == 126  cBAR == 124  cCOLON == 58  cBANG == 33
 cPLUS == 43  cDOT == 46  cAPOS == 39  cCOMMA == 44  cBQUOTE == 96  cUNDER == 95  cEQ == 61
+cSLASH == 47  cBSLASH == 92  cLPAR == 40  cRPAR == 41
 
-Modelled == {cSP, cDASH, cTILDE, cBAR, cCOLON, cBANG, cPLUS, cDOT, cAPOS, cCOMMA, cBQUOTE, cUNDER, cEQ}
+Modelled == {cSP, cDASH, cTILDE, cBAR, cCOLON, cBANG, cPLUS, cDOT, cAPOS, cCOMMA, cBQUOTE, cUNDER, cEQ,
+             cSLASH, cBSLASH, cLPAR, cRPAR}
 
 G(gx, gy) == <<gx * 2, gy * 4>>
 pa == G(0,0) pb == G(1,0) pc == G(2,0) pd == G(3,0) pe == G(4,0)
@@ -31,9 +33,9 @@ Off(p, dx, dy) == <<p[1] + CW * dx, p[2] + CH * dy>>
 \* "T" cell text
 Line(p1, p2)   == [k |-> "L", s |-> PMin(p1, p2), e |-> PMax(p1, p2), b |-> FALSE]
 Broken(p1, p2) == [k |-> "L", s |-> PMin(p1, p2), e |-> PMax(p1, p2), b |-> TRUE]
-Arc(p1, p2, rad) == IF PLe(p1, p2) THEN [k |-> "A", s |-> p1, e |-> p2, r |-> rad, sw |-> FALSE]
-                    ELSE [k |-> "A", s |-> p2, e |-> p1, r |-> rad, sw |-> TRUE]
-U2 == 4  U4 == 8  U8 == 16
+Arc(p1, p2, rad) == IF PLe(p1, p2) THEN [k |-> "A", s |-> p1, e |-> p2, r |-> rad, sw |-> FALSE, mj |-> FALSE]
+                    ELSE [k |-> "A", s |-> p2, e |-> p1, r |-> rad, sw |-> TRUE, mj |-> FALSE]
+U2 == 4  U4 == 8  U6 == 12  U8 == 16  U16 == 32  B12 == 3
 
 STRONG == 4  MEDIUM == 3  WEAK == 2
 
@@ -56,7 +58,17 @@ Sig(ch) ==
                          <<WEAK, <<Line(pm, po)>> >> >>
     [] ch = cUNDER -> << <<STRONG, <<Line(pu, py)>> >> >>
     [] ch = cEQ    -> << <<MEDIUM, <<Line(<<0, 6>>, <<8, 6>>), Line(<<0, 10>>, <<8, 10>>)>> >> >>
+    [] ch = cSLASH -> << <<STRONG, <<Line(pu, pe)>> >> >>
+    [] ch = cBSLASH -> << <<STRONG, <<Line(pa, py)>> >> >>
+    [] ch = cLPAR  -> << <<MEDIUM, <<Arc(pe, py, U8)>> >> >>
+    [] ch = cRPAR  -> << <<MEDIUM, <<Arc(pu, pa, U8)>> >> >>
     [] OTHER -> <<>>
+
+\* Property::arcs_to: some signature arc runs from a to b in that direction (whatever its radius)
+ArcsTo(ch, p1, p2) ==
+  LET want == Arc(p1, p2, 1) IN
+  \E i \in 1..Len(Sig(ch)) : \E j \in 1..Len(Sig(ch)[i][2]) :
+     LET fr == Sig(ch)[i][2][j] IN fr.k = "A" /\ fr.s = want.s /\ fr.e = want.e /\ fr.sw = want.sw
 
 \* Property::line_overlap_with_signal: some signature line of at least the required strength
 \* contains both points
@@ -72,19 +84,36 @@ Wk(ch, p1, p2)  == Overlap(ch, p1, p2, WEAK)
 Rules(ch, N) ==
   CASE ch = cDASH  -> << <<TRUE, <<Line(pk, po)>> >> >>
     [] ch = cTILDE -> << <<TRUE, <<Broken(pk, po)>> >> >>
-    [] ch = cBAR   -> << <<TRUE, <<Line(pc, pw)>> >>,
+    [] ch = cBAR   -> << <<N.bl # cSLASH /\ N.br # cBSLASH /\ N.tl # cBSLASH /\ N.tr # cSLASH, <<Line(pc, pw)>> >>,
                          <<Med(N.tr, pu, pv), <<Line(pc, pe)>> >>,
                          <<Med(N.tl, px, py), <<Line(pa, pc)>> >>,
                          <<Med(N.r, pu, pv), <<Line(pw, py)>> >>,
                          <<Med(N.l, px, py), <<Line(pu, pw)>> >>,
                          <<Str(N.r, pk, pl), <<Line(pm, po)>> >>,
-                         <<Str(N.l, pn, po), <<Line(pk, pm)>> >> >>
+                         <<Str(N.l, pn, po), <<Line(pk, pm)>> >>,
+                         <<Med(N.bl, pe, pu), <<Line(pc, pm), Line(pm, pu)>> >>,
+                         <<Med(N.br, pa, py), <<Line(pc, pm), Line(pm, py)>> >>,
+                         <<Med(N.tl, pa, py) /\ Med(N.tr, pe, pu), <<Line(pa, pm), Line(pm, pw), Line(pm, pe)>> >> >>
     [] ch \in {cCOLON, cBANG} ->
                       << <<Str(N.t, pr, pw) \/ Str(N.b, pc, ph), <<Broken(pc, pw)>> >> >>
     [] ch = cPLUS  -> << <<Med(N.t, pr, pw), <<Line(pc, pm)>> >>, <<Med(N.b, pc, ph), <<Line(pm, pw)>> >>,
                          <<Med(N.l, pn, po), <<Line(pk, pm)>> >>, <<Med(N.r, pk, pl), <<Line(pm, po)>> >>,
-                         <<Wk(N.l, pn, po), <<Line(pk, pm)>> >>, <<Wk(N.r, pk, pl), <<Line(pm, po)>> >> >>
+                         <<Wk(N.l, pn, po), <<Line(pk, pm)>> >>, <<Wk(N.r, pk, pl), <<Line(pm, po)>> >>,
+                         <<Med(N.tl, ps, py), <<Line(pa, pm)>> >>, <<Med(N.br, pa, pg), <<Line(pm, py)>> >>,
+                         <<Med(N.tr, pq, pu), <<Line(pm, pe)>> >>, <<Med(N.bl, pe, pi), <<Line(pm, pu)>> >> >>
     [] ch = cDOT   -> << <<Str(N.b, pc, ph), <<Line(pr, pw)>> >>,
+                         <<Str(N.bl, pe, pi) /\ Str(N.br, pa, pg), <<Line(pm, pu), Line(pm, py)>> >>,
+                         <<Med(N.r, pk, pl) /\ Med(N.bl, pe, pi), <<Arc(po, pq, U4), Line(pq, pu)>> >>,
+                         <<Med(N.r, pk, pl) /\ Med(N.br, pa, pg), <<Arc(po, ps, B12), Line(ps, py)>> >>,
+                         <<Med(N.l, pn, po) /\ Med(N.br, pa, pg), <<Arc(ps, pk, U4), Line(ps, py)>> >>,
+                         <<Med(N.l, pn, po) /\ Med(N.bl, pe, pi), <<Arc(pq, pk, B12), Line(pu, pq)>> >>,
+                         <<ArcsTo(N.bl, pe, py), <<Arc(po, pq, U4), Line(pq, pu)>> >>,
+                         <<ArcsTo(N.br, pu, pa), <<Arc(ps, pk, U4), Line(ps, py)>> >>,
+                         <<N.l \in {cAPOS, cBQUOTE} /\ Med(N.br, pa, pm), <<Arc(py, Off(pa, -1, 0), U16)>> >>,
+                         <<N.r = cAPOS /\ Med(N.bl, pe, pm), <<Arc(Off(pe, 1, 0), pu, U16)>> >>,
+                         <<Med(N.t, pm, pw) /\ Med(N.bl, pe, pm), <<Arc(pq, ph, U8), Line(pc, ph), Line(pq, pu)>> >>,
+                         <<Med(N.tr, pm, pu) /\ Med(N.bl, pe, pm), <<Line(pu, pe)>> >>,
+                         <<Med(N.t, pm, pw) /\ Med(N.br, pa, pm), <<Line(pc, ph), Arc(ph, ps, U8), Line(ps, py)>> >>,
                          <<Med(N.r, pk, pl) /\ Med(N.b, pc, ph), <<Arc(po, pr, U2), Line(pr, pw)>> >>,
                          <<Med(N.r, pk, pl) /\ Med(N.bl, pc, ph), <<Arc(pm, Off(pc, -1, 1), U4), Line(pm, po)>> >>,
                          <<Med(N.l, pn, po) /\ Med(N.b, pc, ph), <<Arc(pr, pk, U2), Line(pr, pw)>> >>,
@@ -94,6 +123,14 @@ Rules(ch, N) ==
                          <<N.l = cBQUOTE /\ N.br = cBQUOTE, <<Broken(Off(pc, -1, 0), Off(pc, 1, 1))>> >>,
                          <<N.r = cAPOS /\ N.bl = cAPOS, <<Broken(Off(pc, 1, 0), Off(pc, -1, 1))>> >> >>
     [] ch = cAPOS  -> << <<Str(N.t, pm, pw), <<Line(pc, ph)>> >>,
+                         <<Med(N.tl, ps, py) /\ Med(N.r, pk, pl), <<Line(pa, pg), Arc(pg, po, U4)>> >>,
+                         <<Med(N.tr, pu, pq) /\ Med(N.r, pk, pl), <<Line(pe, pi), Arc(pi, po, B12)>> >>,
+                         <<Med(N.tr, pu, pq) /\ Med(N.l, pn, po), <<Arc(pk, pi, U4), Line(pi, pe)>> >>,
+                         <<Med(N.tl, ps, py) /\ Med(N.l, pn, po), <<Arc(pk, pg, B12), Line(pg, pa)>> >>,
+                         <<Med(N.tl, ps, py) /\ Med(N.tr, pu, pq), <<Line(pa, pm), Line(pm, pe)>> >>,
+                         <<ArcsTo(N.tl, pe, py), <<Line(pa, pg), Arc(pg, po, U4)>> >>,
+                         <<ArcsTo(N.tr, pu, pa), <<Arc(pk, pi, U4), Line(pi, pe)>> >>,
+                         <<N.l = cDOT /\ N.tr = cSLASH, <<Arc(Off(pu, -1, 0), pe, U16)>> >>,
                          <<Med(N.r, pk, pl) /\ Med(N.t, pr, pw), <<Arc(ph, po, U2), Line(pc, ph)>> >>,
                          <<Med(N.r, pk, pl) /\ Med(N.tl, pr, pw), <<Arc(Off(pw, -1, -1), pm, U4), Line(pm, po)>> >>,
                          <<Med(N.l, pn, po) /\ Med(N.t, pr, pw), <<Arc(pk, ph, U2), Line(pc, ph)>> >>,
@@ -102,12 +139,33 @@ Rules(ch, N) ==
                          <<Med(N.tl, pu, py) /\ Med(N.r, pk, po), <<Line(pa, po)>> >>,
                          <<N.l = cDOT /\ N.tr = cDOT, <<Broken(Off(pm, -1, 0), Off(pm, 1, -1))>> >>,
                          <<N.r = cDOT /\ N.tl = cDOT, <<Broken(Off(pm, -1, -1), Off(pm, 1, 0))>> >> >>
-    [] ch = cCOMMA -> << <<Med(N.r, pk, pl) /\ Med(N.b, pc, ph), <<Arc(po, pr, U2), Line(pr, pw)>> >> >>
+    [] ch = cCOMMA -> << <<Med(N.r, pk, pl) /\ Med(N.b, pc, ph), <<Arc(po, pr, U2), Line(pr, pw)>> >>,
+                         <<Med(N.r, pk, pl) /\ Med(N.bl, pe, pi), <<Arc(po, pq, U4), Line(pq, pu)>> >>,
+                         <<ArcsTo(N.bl, pe, py), <<Arc(po, pq, U4), Line(pq, pu)>> >> >>
     [] ch = cBQUOTE -> << <<Med(N.r, pk, pl) /\ Med(N.t, pr, pw), <<Arc(ph, po, U2), Line(pc, ph)>> >>,
+                          <<Med(N.tl, ps, py) /\ Med(N.r, pk, pl), <<Line(pa, pg), Arc(pg, po, U4)>> >>,
+                          <<ArcsTo(N.tl, pe, py), <<Line(pa, pg), Arc(pg, po, U4)>> >>,
+                          <<N.tl = cBSLASH /\ N.r = cDOT, <<Arc(pa, Off(py, 1, 0), U16)>> >>,
                           <<Med(N.tl, pu, py) /\ Med(N.r, pk, po), <<Line(pa, po)>> >>,
                           <<N.tl = cDOT /\ N.r = cDOT, <<Broken(Off(pm, -1, -1), Off(pm, 1, 0))>> >>,
                           <<N.t = cCOMMA /\ Med(N.r, pk, pl), <<Arc(ph, po, U2), Line(pc, ph)>> >> >>
-    [] ch = cUNDER -> << <<TRUE, <<Line(pu, py)>> >> >>
+    [] ch = cUNDER -> << <<TRUE, <<Line(pu, py)>> >>,
+                         <<Str(N.l, pe, pu), <<Line(pu, Off(pu, -1, 0))>> >>,
+                         <<Str(N.r, pa, py), <<Line(py, Off(py, 1, 0))>> >> >>
+    [] ch = cSLASH -> << <<~Str(N.b, pc, ph), <<Line(pu, pe)>> >>,
+                         <<Str(N.r, pk, pl), <<Line(pm, po)>> >>,
+                         <<Str(N.l, pn, po), <<Line(pm, pk)>> >>,
+                         <<Str(N.b, pc, ph), <<Line(pe, pm), Line(pm, pw)>> >> >>
+    [] ch = cBSLASH -> << <<N.b # cBAR, <<Line(pa, py)>> >>,
+                          <<Med(N.b, pc, pm), <<Line(pa, pm), Line(pm, pw)>> >>,
+                          <<Str(N.r, pk, pl), <<Line(pm, po)>> >>,
+                          <<Str(N.l, pn, po), <<Line(pm, pk)>> >> >>
+    [] ch = cLPAR  -> << <<~Med(N.t, pr, pw) /\ ~Med(N.b, pc, ph), <<Arc(pe, py, U8)>> >>,
+                         <<Med(N.b, pc, ph), <<Arc(pc, pw, U6)>> >>,
+                         <<Med(N.l, pm, po) /\ Med(N.r, pk, pl), <<Line(pk, po)>> >> >>
+    [] ch = cRPAR  -> << <<~Med(N.t, pr, pw) /\ ~Med(N.b, pc, ph), <<Arc(pu, pa, U8)>> >>,
+                         <<Med(N.t, pr, pw) /\ Med(N.b, pc, ph), <<Arc(pw, pc, U6)>> >>,
+                         <<Med(N.l, pm, po) /\ Med(N.r, pk, pl), <<Line(pk, po)>> >> >>
     [] ch = cEQ    -> << <<TRUE, <<Line(<<0, 6>>, <<8, 6>>), Line(<<0, 10>>, <<8, 10>>)>> >> >>
     [] OTHER -> <<>>
 
